@@ -209,28 +209,45 @@ func resolveKey(info *types.Info, fd *ast.FuncDecl, e ast.Expr) string {
 	return obj.Name() + "." + strings.Join(path, ".")
 }
 
-// soleDefinition returns the defining expression of local v if it is assigned exactly once in fd.
+// soleDefinition returns the defining expression of local v if it is assigned
+// exactly once in fd and that assignment is its declaration (v := expr), so
+// that the definition holds wherever v is in scope.
 func soleDefinition(info *types.Info, fd *ast.FuncDecl, v *types.Var) ast.Expr {
 	var def ast.Expr
 	n := 0
+	declares := false
 	ast.Inspect(fd.Body, func(m ast.Node) bool {
-		as, ok := m.(*ast.AssignStmt)
-		if !ok {
-			return true
-		}
-		for i, l := range as.Lhs {
-			if id, ok := l.(*ast.Ident); ok && info.ObjectOf(id) == v {
-				n++
-				if len(as.Lhs) == len(as.Rhs) {
-					def = as.Rhs[i]
-				} else {
-					def = nil
+		switch as := m.(type) {
+		case *ast.AssignStmt:
+			for i, l := range as.Lhs {
+				if id, ok := l.(*ast.Ident); ok && info.ObjectOf(id) == v {
+					n++
+					if len(as.Lhs) == len(as.Rhs) {
+						def = as.Rhs[i]
+					} else {
+						def = nil
+					}
+					if as.Tok == token.DEFINE && info.Defs[id] == v {
+						declares = true
+					}
+				}
+			}
+		case *ast.IncDecStmt:
+			if id, ok := as.X.(*ast.Ident); ok && info.ObjectOf(id) == v {
+				n += 2
+			}
+		case *ast.ValueSpec:
+			for i, name := range as.Names {
+				if info.Defs[name] == v && len(as.Values) == len(as.Names) {
+					n++
+					def = as.Values[i]
+					declares = true
 				}
 			}
 		}
 		return true
 	})
-	if n == 1 {
+	if n == 1 && declares {
 		return def
 	}
 	return nil
@@ -284,6 +301,7 @@ func objOfIdent(info *types.Info, e ast.Expr) types.Object {
 }
 
 type addEvData struct {
+	mid     types.Object // second of three results
 	ok, err types.Object // objects assigned from the call
 	op      string       // constants.X for check/hook
 	args    []ast.Expr
